@@ -519,3 +519,54 @@ Print Assumptions C01_tm_nothing_minted_at_zero.
 Print Assumptions C01_tm_burn_remaining_zeroes.
 Print Assumptions C01_tm_counter_never_increases.
 Print Assumptions C01_tm_zero_is_forever.
+
+(* =====================================================================================
+   Part 2b: the NFT metadata mode of an open edition (OffChainMetadata with a token_uri and
+   an sg721-base collection, or OnChainMetadata with an extension and an
+   sg721-metadata-onchain collection).  `ostep_nft c` = `ostep` plus what the collection is
+   asked to store; the mode influences nothing else, so every statement of Part 2 holds in
+   both modes.  Statements only.
+   ===================================================================================== *)
+From LP Require Import MinterOpenMetaProofs.
+
+(* whatever the configuration, the call succeeds or fails alike, reaches the same state,
+   emits the same messages and mints the same ids to the same owners *)
+Theorem C01_oe_metadata_mode_does_not_touch_supply : forall c c' vr s e fp wv o,
+  match ostep_nft c vr s e fp wv o, ostep_nft c' vr s e fp wv o with
+  | Ok (s1, ms1, mm1), Ok (s2, ms2, mm2) =>
+      s1 = s2 /\ ms1 = ms2 /\ ostep vr s e fp wv o = Ok (s1, ms1) /\
+      map om_id mm1 = map om_id mm2 /\ map om_owner mm1 = map om_owner mm2
+  | Err, Err => ostep vr s e fp wv o = Err
+  | _, _ => False
+  end.
+Proof. exact ostep_nft_mode_independent. Qed.
+
+(* a successful Mint / MintTo stores exactly one token: the next id, for the recipient, with
+   the configured token_uri (off-chain) or the configured extension (on-chain) *)
+Theorem C01_oe_minted_token_carries_configured_metadata : forall c vr s e fp wv o s' ms mm,
+  is_mint_op o = true -> ostep_nft c vr s e fp wv o = Ok (s', ms, mm) ->
+  exists owner,
+    nft_msgs ms = [(o_token_index s + 1, owner)] /\
+    mm = [mkOMint (o_token_index s + 1) owner
+                  (if nft_onchain c then None else nft_uri c)
+                  (if nft_onchain c then nft_ext c else None)].
+Proof. exact ostep_nft_mint. Qed.
+
+Theorem C01_oe_other_calls_store_nothing : forall c vr s e fp wv o s' ms mm,
+  is_mint_op o = false -> ostep_nft c vr s e fp wv o = Ok (s', ms, mm) -> mm = [].
+Proof. exact ostep_nft_other. Qed.
+
+Example C01_oe_ex_onchain_mint_evaluates :
+  match ostep_nft (mkNft true None (Some 7)) (mkOV false false) (oe_s0 (mkOV false false))
+                  (mkEnv 2000 11 [mkCoin 0 100] 20) oe_fp None (EMint None false None),
+        ostep_nft (mkNft false (Some 6) None) (mkOV false false) (oe_s0 (mkOV false false))
+                  (mkEnv 2000 11 [mkCoin 0 100] 20) oe_fp None (EMint None false None) with
+  | Ok (s1, _, mm1), Ok (s2, _, mm2) =>
+      s1 = s2 /\ mm1 = [mkOMint 1 11 None (Some 7)] /\ mm2 = [mkOMint 1 11 (Some 6) None]
+  | _, _ => False
+  end.
+Proof. vm_compute. repeat split; reflexivity. Qed.
+
+Print Assumptions C01_oe_metadata_mode_does_not_touch_supply.
+Print Assumptions C01_oe_minted_token_carries_configured_metadata.
+Print Assumptions C01_oe_other_calls_store_nothing.
